@@ -169,10 +169,13 @@ def check_program(pc):
 
 
 def _work(pcs):
+    import time
     out = []
     for pc in pcs:
         try:
+            t0 = time.time()
             r = check_program(pc)
+            r["stats"]["secs"] = round(time.time() - t0, 1)
         except Exception as e:  # noqa: BLE001
             import traceback
             r = dict(fails=[], machinery=[f"driver exception on program {pc['prog']['pid']}: {e!r}\n{traceback.format_exc()[-1500:]}"], stats=None)
@@ -207,7 +210,7 @@ def run(prop_id, tier, seed, replay=None):
         q = tier == "quick"
         # role A on the full state graph (no history, no length bound), with coverage
         cfgA = os.path.join(wd, "MC.cfg")
-        write_cfg(cfgA, seed, 12 if q else 150, 0, 1, False, False, ["RoleA"])
+        write_cfg(cfgA, seed, 8 if q else 150, 0, 1, False, False, ["RoleA"])
         a = vlib.run_tlc("TimeTravel", cfgA, wd, tag="roleA", coverage=True, timeout=1500)
         rep.add_tlc(a)
         cov = vlib.tlc_coverage(a)
@@ -219,7 +222,7 @@ def run(prop_id, tier, seed, replay=None):
                 raise vlib.MachineryError(f"action {name} never fired in the role-A run (vacuous model)")
         # role B: behaviours.  The real debugger re-stages and eagerly re-executes the program at every remix, and an eager
         # cond / while / scan of a fresh jaxpr costs an XLA compilation, so control-flow programs get short behaviours.
-        plans = [("L3", seed, 30, 3, 0), ("CF", seed + 13, 24, 2, 1)] if q else \
+        plans = [("L3", seed, 22, 3, 0), ("CF", seed + 13, 10, 2, 1)] if q else \
                 [("L3", seed, 400, 3, 0), ("L4", seed + 7, 45, 4, 0), ("CF", seed + 13, 200, 2, 1)]
         for name, sd, nprog, maxlen, maxnest in plans:
             cfg = os.path.join(wd, f"Gen{name}.cfg")
@@ -231,18 +234,15 @@ def run(prop_id, tier, seed, replay=None):
         rep.extra["exhaustive_scope"] = ("for each generated (program, input): every action sequence of length <= 3 (L3 programs) / "
                                          "<= 4 (L4 programs) / <= 2 (CF programs, with control flow) over the action alphabet; "
                                          "the programs themselves are sampled")
-    pcs = sorted(programs.values(), key=lambda pc: -len(pc["nodes"]))
-    buckets = [[] for _ in range(vlib.NCPU * 2)]
-    loads = [0] * len(buckets)
-    for pc in pcs:
-        i = loads.index(min(loads))
-        buckets[i].append(pc)
-        loads[i] += len(pc["nodes"])
-    with vlib.pinned_pool() as pool:
-        results = pool.map(_work, [b for b in buckets if b], chunksize=1)
+    def est(pc):   # structured equations are re-compiled at every remix: ~50x an arithmetic node
+        ncf = len(jaxir.ops_of(pc["prog"]["prog"]) & {"cond", "while", "fori", "call", "scan"})
+        return len(pc["nodes"]) * (1 + 50 * ncf)
+    pcs = sorted(programs.values(), key=est, reverse=True)
+    with vlib.pinned_pool() as pool:         # one program per task, most expensive first (dynamic balancing)
+        results = pool.map(_work, [[pc] for pc in pcs], chunksize=1)
     by_key = {pc["key"]: pc for pc in pcs}
     machinery, per_sig = [], {}
-    tot_nodes, acts, nrecs = 0, {}, {}
+    tot_nodes, acts, nrecs, secs = 0, {}, {}, {}
     for chunk in results:
         for key, r in chunk:
             pc = by_key[key]
@@ -250,6 +250,7 @@ def run(prop_id, tier, seed, replay=None):
             if r["stats"] is None:
                 continue
             tot_nodes += r["stats"]["nodes"]
+            secs[key] = r["stats"].get("secs", 0)
             for k, v in r["stats"]["actions"].items():
                 acts[k] = acts.get(k, 0) + v
             nrecs[pc["prog"]["nrec"]] = nrecs.get(pc["prog"]["nrec"], 0) + 1
@@ -278,6 +279,7 @@ def run(prop_id, tier, seed, replay=None):
         rep.sample({"program": jaxir.show(pc["prog"]["prog"]), "input": pc["prog"]["inp"],
                     "behaviour": some[0]["hist"] if some else [], "expected": {k: some[0][k] for k in ("final", "ptr")} if some else {}})
     rep.extra.update(programs=len(pcs), programs_by_record_points=nrecs, actions_replayed=acts,
+                     slowest_programs_s=dict(sorted(secs.items(), key=lambda kv: -kv[1])[:5]),
                      violations_by_kind={"/".join(map(str, k)): v for k, v in per_sig.items()})
     rep.assumptions = ["scalar programs, values mod 3; remix argument tuples restricted to 3 per arity; record points only at the top level "
                        "of the function or of a recorded function (record points inside cond/scan/while bodies are not frames)",
